@@ -37,7 +37,9 @@ theorem unmarshalExprK_noUmf (K : Closures) : ∀ v : Val, noUmf v = true → un
   | .stk f c xs, h => by
     simp only [noUmf, Bool.and_eq_true, Option.isNone_iff_eq_none] at h
     simp only [unmarshalExprK, unmarshalExpr, h.1, unmarshalElemsK_noUmf K xs h.2]
-  | .cnd f c kw op ex, _ => by simp only [unmarshalExprK, unmarshalExpr]
+  | .cnd f c kw op ex, h => by
+    simp only [noUmf, Bool.and_eq_true, Option.isNone_iff_eq_none] at h
+    simp only [unmarshalExprK, unmarshalExpr, h.1, unmarshalExprK_noUmf K ex h.2]
   | .nil, _ => rfl
   | .leaf _, _ => rfl
   | .zstk _, _ => rfl
@@ -45,6 +47,16 @@ theorem unmarshalExprK_noUmf (K : Closures) : ∀ v : Val, noUmf v = true → un
   | .anys _, _ => by simp only [unmarshalExprK, unmarshalExpr]
   | .opv _, _ => rfl
 end
+
+/-- a Condition contributes the same entry and the same error whether it is an element of a Stack or the expression of
+another Condition: both go through the public `Condition.Unmarshal()` (repair F43) -/
+theorem unmarshalExprK_cnd (K : Closures) (f : Form) (c : Cfg) (kw : Text) (op : Op) (ex : Val) :
+    unmarshalExprK K (.cnd f c kw op ex) = unmarshalElemK K (.cnd f c kw op ex) := by
+  cases hu : c.umf <;> simp only [unmarshalExprK, unmarshalElemK, hu]
+
+theorem unmarshalExpr_cnd (f : Form) (c : Cfg) (kw : Text) (op : Op) (ex : Val) :
+    unmarshalExpr (.cnd f c kw op ex) = unmarshalElem (.cnd f c kw op ex) := by
+  simp only [unmarshalExpr, unmarshalElem]
 
 /-! ## The loop, step by step -/
 
@@ -131,7 +143,10 @@ theorem unmarshalExprK_erase (K : Closures) : ∀ v : Val,
     cases hu : c.umf with
     | some p => simp only [erase, unmarshalExprK, hu, Closures.eraseU]
     | none => simp only [erase, unmarshalExprK, hu, eraseList, unmarshalElemsK_erase K xs, strV]
-  | .cnd f c kw op ex => by simp only [erase, unmarshalExprK]
+  | .cnd f c kw op ex => by
+    cases hu : c.umf with
+    | some p => simp only [erase, unmarshalExprK, hu, Closures.eraseU]
+    | none => simp only [erase, unmarshalExprK, hu, eraseList, unmarshalExprK_erase K ex, strV]
   | .nil => rfl
   | .leaf _ => rfl
   | .zstk _ => rfl
@@ -164,7 +179,10 @@ theorem unmarshalExprK_eraseU (K : Closures) (hK : K.UmfNative) : ∀ v : Val, u
     cases hu : c.umf with
     | some p => simp only [unmarshalExprK, hu, Closures.eraseU, hK p]
     | none => simp only [unmarshalExprK, hu, unmarshalElemsK_eraseU K hK xs]
-  | .cnd f c kw op ex => by simp only [unmarshalExprK]
+  | .cnd f c kw op ex => by
+    cases hu : c.umf with
+    | some p => simp only [unmarshalExprK, hu, Closures.eraseU, hK p]
+    | none => simp only [unmarshalExprK, hu, unmarshalExprK_eraseU K hK ex]
   | .nil => rfl
   | .leaf _ => rfl
   | .zstk _ => rfl
